@@ -154,7 +154,7 @@ func main() {
 		}
 		base64MasterKey := base64.StdEncoding.EncodeToString(backup.Keys)
 		utils.ZeroizeSymmetricKey(backup.Keys)
-		if err := os.WriteFile(file, backup.Keys, filesystem.PrivateFileMode); err != nil {
+		if err := os.WriteFile(file, backup.Data, filesystem.PrivateFileMode); err != nil {
 			log.WithError(err).Errorf("Can't write backup to file %s", file)
 			os.Exit(1)
 		}
